@@ -679,7 +679,9 @@ class Program:
                     new = fresh[:k] + names[k:]
                     partial = fresh[:k]
                 else:
-                    new = rng.sample(ID_NAMES + ["n1", "n2", "n3", "n4", "n5"], len(names))
+                    namepool = ID_NAMES + ["n1", "n2", "n3", "n4", "n5"]
+                    if len(names) > len(namepool): return       # (a frame grown wider than the monitor's pool of fresh names: step skipped)
+                    new = rng.sample(namepool, len(names))
                 assigned = locals().get("partial") or new
                 def call():
                     df.colnames = list(assigned)
